@@ -156,7 +156,7 @@ def r4_action_committed(ctx):
     r.check(len(calls) == 1, "seal/call", "seal applies the proposer action", "seal calls apply_proposer_action %d times" % len(calls))
     for bi, e in calls:
         act = e[2][1]
-        r.check(sig(q.novers(act)) == "($2 as Some).0", "seal/arg", "the applied action is the parameter's payload", "seal applies %s" % sig(act)[:80], seal.where(bi))
+        r.check(sig(q.novers(act)) == "try($2)", "seal/arg", "the applied action is the parameter's payload", "seal applies %s" % sig(act)[:80], seal.where(bi))
         # under Some(action) every path to the return passes the call
         discr = [x for b2, t in seal.iter_terms("switch") for x in [seal.rec_operand(t["discr"], b2, "T")] if x[0] == "discr" and sig(q.novers(x[1])) == "$2"]
         r.check(len(discr) >= 1, "seal/match", "seal matches on the action", "seal does not branch on the action")
